@@ -13,8 +13,8 @@ REPLAYS = os.environ.get("VERIF_REPLAYS_DIR") or os.path.join(ROOT, "replays")
 # mutation runs (tools/run_seeded.py) write their evidence elsewhere so that /verif/evidence always describes /repo itself
 EVIDENCE = os.environ.get("VERIF_EVIDENCE_DIR") or os.path.join(ROOT, "evidence")
 
-MATRIX = [(1, 1), (1, 4), (2, 3), (2, 5), (3, 2), (4, 1), (4, 4), (4, 8), (4, 12), (5, 5), (7, 2), (8, 1), (8, 3), (8, 20), (12, 4), (16, 1), (16, 2),
-          (16, 3), (16, 8), (16, 16), (24, 2), (32, 4), (48, 3), (64, 2), (255, 2)]
+MATRIX = [(1, 1), (1, 4), (2, 3), (2, 5), (3, 2), (4, 1), (4, 4), (4, 8), (4, 12), (4, 260), (5, 5), (7, 2), (8, 1), (8, 3), (8, 20), (12, 4), (16, 1), (16, 2),
+          (16, 3), (16, 8), (16, 16), (16, 256), (24, 2), (32, 4), (48, 3), (64, 2), (255, 2)]
 # real ciphers (thorough tier): the pseudo-width names the cipher; the harness drives it through its real backend
 # and logs every block, the log is the model's cipher for that case (harness/src/logged.rs, Driver/Proto.lean)
 MATRIX_REAL = [(16, 101), (16, 102), (16, 103), (16, 104), (8, 105)]
